@@ -10,9 +10,9 @@ import XmppModel.Model.SendGuard
                                                        k tokens of its element; then Send(next))
     flush <entry> <form>                           -> 1 | 0   (is the element on the connection
                                                        when the call returns)
-    behind <fail|finish> <k> <holder toks> <entry> <ns> <from|-> <startTok|-> <toks>
+    behind <fail|finish> <park> <k> <holder toks> <entry> <ns> <from|-> <startTok|-> <toks>
                                                    -> <first ok|fail> <second ok|broken> <canonical wire>
-                                                       (a Send parked after k tokens of its element, the second
+                                                       (a Send parked after `park` tokens of its element, stopping after k; the second
                                                        call queued for the lock; statuses from the SendGuard LTS
                                                        with the guard under the lock, wire from the encoder model)
     conc <n> <i0,i1,…>                             -> ok | bad   (is the observed order of
@@ -57,10 +57,11 @@ def handedToks (entry start : String) (ts : List Tok) : Option (List Tok) :=
 
 def handle (args : List String) : Option String :=
   match args with
-  | ["behind", mode, k, htoks, entry, ns, from_, start, toks] => do
+  | ["behind", mode, park, k, htoks, entry, ns, from_, start, toks] => do
     let fr ← if from_ == "-" then some "" else hexDecodeStr from_
     let cfg : Cfg := ⟨ns, fr⟩
     let k ← k.toNat?
+    let park ← park.toNat?
     let hs ← decToks htoks
     let ts ← decToks toks
     let us ← handedToks entry start ts
@@ -71,7 +72,7 @@ def handle (args : List String) : Option String :=
       { job := fun i => if i = 0 then first else us,
         failAt := fun i => if i = 0 && mode == "fail" then some k else none,
         early := fun _ => false }
-    let sched := [0] ++ List.replicate k 0 ++ [1] ++ List.replicate (first.length + 2) 0
+    let sched := [0] ++ List.replicate park 0 ++ [1] ++ List.replicate (first.length + 2) 0
       ++ List.replicate (us.length + 2) 1
     let fin := SendGuard.run prog (SendGuard.init Tok) sched
     let s1 ← match fin.pc 0 with | .done => some "ok" | .failed => some "fail" | _ => none
